@@ -67,7 +67,8 @@ def _case(draw):
     files = []
     tables = []
     for k in range(nfiles):
-        t = draw(progs.tables(min_rows=1, max_rows=5))
+        # (also header-only files: min_rows=0)
+        t = draw(progs.tables(min_rows=draw(st.sampled_from([0, 1, 1, 1])), max_rows=5))
         if draw(st.integers(0, 2)) != 1:
             hp = progs.hdr_pos(t)
             hdr = t["records"][hp]
@@ -87,7 +88,7 @@ def _case(draw):
     for j in range(njobs):
         k = draw(st.integers(0, nfiles - 1))
         t = tables[k]
-        prog = draw(progs.programs(t, kinds=("b", "b", "assign", "when", "se", "print", "first"), max_comps=3, depth=2))
+        prog = draw(progs.programs(t, kinds=("b", "b", "assign", "when", "se", "print", "first", "last"), max_comps=3, depth=2))
         prog["comps"] = c20.by_index(prog["comps"], t["cols"])
         prog["comps"] = observers(draw) + prog["comps"]
         jobs.append({"file": k, "prog": prog, "scan": draw(progs.scans(t)), "via": draw(st.sampled_from(["CsvPath", "CsvPaths", "CsvPaths"]))})
